@@ -213,8 +213,12 @@ def ff_reference(log_text: str):
     return "ok", steps
 
 
-def concrete_ff(log_text: str, entry: str):
-    """the real parser, real re, real files"""
+PREVIOUS_LOG = HEADERS[1] + MARKER + "step    0: OLD-STEP X\n\n" + TRAILERS[0]
+
+
+def concrete_ff(log_text: str, entry: str, after_previous_log: bool = False):
+    """the real parser, real re, real files; optionally the log file held another run's log before (one solver.log per
+    wrapper is usual): the answer must be about the file as it is now"""
     import re as real_re
     ff = _ff()
     rex.uninstall(ff)
@@ -223,6 +227,10 @@ def concrete_ff(log_text: str, entry: str):
         if entry == "content":
             return "ok", p._parse_plan_content(log_text)
         path = lib.write_tmp("", ".log")
+        if after_previous_log:
+            with open(path, "wb") as f:
+                f.write(PREVIOUS_LOG.encode("ascii"))
+            p.get_solving_status(path)
         with open(path, "wb") as f:
             f.write(log_text.encode("ascii"))
         if entry == "status":
@@ -254,16 +262,20 @@ def _cex(ctx, res, task, log, desc, neg):
         return
     textv = log.concrete(model)
     entry = task["entry"]
-    got = concrete_ff(textv, entry)
     exp = ff_reference(textv)
     if entry == "content" and exp[0] != "ok":
         exp = ("ok", exp[1])
-    if (got[0], list(got[1])) != (exp[0], list(exp[1])):
-        res["outcome"] = "violation"
-        res["cex"] = {"what": desc, "log": textv, "entry": entry, "library": [got[0], list(got[1])],
-                      "reference": [exp[0], list(exp[1])]}
-    else:
-        res["unconfirmed"] = res.get("unconfirmed", 0) + 1
+    for history in (False, True):
+        # the symbolic run re-reads one in-memory path with changing content; a disagreement that only shows when the file
+        # held another log before is replayed that way (and reported as such)
+        got = concrete_ff(textv, entry, after_previous_log=history)
+        if (got[0], list(got[1])) != (exp[0], list(exp[1])):
+            res["outcome"] = "violation"
+            res["cex"] = {"what": desc + (" [the log file held another run's log before]" if history else ""), "log": textv,
+                          "entry": entry, "library": [got[0], list(got[1])], "reference": [exp[0], list(exp[1])],
+                          "after_previous_log": history}
+            return
+    res["unconfirmed"] = res.get("unconfirmed", 0) + 1
 
 
 def run_noplan_task(task):
@@ -574,11 +586,12 @@ def replay(payload, path):
         import pddl_plus_parser.exporters.enhsp_output_parser as en
         p = lib.write_tmp(cx["log"], ".txt")
         real = en.ENHSPParser.parse_plan_content(p)
-        exp = [l.lower() + "\n" for l in cx["log"].split("\n")[:-1]]
-        bad = real != exp
+        textv = cx["log"]
+        exp = [l.lower() for l in (textv[:-1] if textv.endswith("\n") else textv).split("\n")] if textv else []
+        bad = [r[:-1] if r.endswith("\n") else r for r in real] != exp
         print("library", real, "reference", exp)
     else:
-        got = concrete_ff(cx["log"], cx["entry"])
+        got = concrete_ff(cx["log"], cx["entry"], after_previous_log=bool(cx.get("after_previous_log")))
         exp = ff_reference(cx["log"])
         if cx["entry"] == "content":
             exp = ("ok", exp[1])
